@@ -418,8 +418,22 @@ def _optimize(n):
 
         h.I.stubs[PTL + "termlist_to_polytope"] = spy
         out = h.call(h.method(A, "optimize"), [obj, maximize])
+        if n == 0:
+            # no constraint at all: every valuation is a behaviour - the contract is satisfiable (never ValueError), a
+            # non-zero objective is unbounded (None) and the zero objective has the value 0
+            h.check("C12.optimize.no_constraints_is_not_infeasible", out.kind == "return", "raised %s at %s for a list without constraints" % (out.exc_name, out.where))
+            if out.kind == "return":
+                nonzero = z3.Or(*[to_real(cf) != 0 for _, cf in obj_pairs]) if obj_pairs else z3.BoolVal(False)
+                if out.value is None:
+                    h.cover("None")
+                    h.ensure("C12.optimize.no_constraints_none_only_for_a_nonzero_objective", nonzero)
+                else:
+                    h.cover("value")
+                    h.ensure("C12.optimize.no_constraints_value_only_for_the_zero_objective", z3.And(z3.Not(nonzero), to_real(out.value) == 0))
+            h.frame_ok(out, "C13.frame")
+            return
         if not lp.calls or not st_orders:
-            h.check("C12.optimize.uses_one_lp", out.kind == "raise" and n == 0, "no LP solved")
+            h.check("C12.optimize.uses_one_lp", False, "no LP solved")
             return
         call = lp.calls[-1]
         names = st_orders[-1]
@@ -468,7 +482,7 @@ def _optimize(n):
     return c
 
 
-for _n in (1, 2):
+for _n in (0, 1, 2):
     contract(
         "PolyhedralTermList.optimize[%d]" % _n,
         ["C12", "C13", "C14"],
@@ -478,6 +492,6 @@ for _n in (1, 2):
         assumes=["A4", "A5"],
         # (one constraint that mentions a variable is always satisfiable: the infeasible answer needs two)
         covers=["value", "None"] + (["ValueError"] if _n >= 2 else []),
-        shards=2 * _n,
-        weight=2 * _n,
+        shards=max(1, 2 * _n),
+        weight=max(1, 2 * _n),
     )(_optimize(_n))
